@@ -330,6 +330,35 @@ func minLenEstablished(s ssa.Value, need int64, at ssa.Instruction, depth int) (
 		return true, "all incoming values"
 	case *ssa.Call:
 		// helper result / append with enough constant elements: not modelled
+	case *ssa.Parameter:
+		// established at every (direct, in-module) call site for the argument
+		if factGraph != nil {
+			fn := x.Parent()
+			idx := -1
+			for i, pp := range fn.Params {
+				if pp == x {
+					idx = i
+				}
+			}
+			sites, all := 0, true
+			for _, e := range factGraph.In[fn] {
+				if isTestSupport(pkgPathOfFunc(e.From)) {
+					continue
+				}
+				c, isCall := e.Site.(ssa.CallInstruction)
+				if !isCall || e.Escape || c.Common().IsInvoke() || c.Common().StaticCallee() != fn || idx < 0 || idx >= len(c.Common().Args) {
+					all = false
+					break
+				}
+				sites++
+				if ok, _ := minLenEstablished(c.Common().Args[idx], need, c, depth+1); !ok {
+					all = false
+				}
+			}
+			if all && sites > 0 {
+				return true, "established at every call site"
+			}
+		}
 	case *ssa.Convert:
 		// []byte(str) / string(bytes)
 		if ok, why := minLenEstablished(x.X, need, at, depth+1); ok {
